@@ -57,7 +57,7 @@ def ref(bal, rate, markup, secs):
 
 def case(ctx, i, tier):
     rng = ctx.rng
-    t0 = datetime(2000, 1, 1)
+    t0 = datetime(rng.choice([1999, 2000, 2019, 2020, 2023, 2024]), rng.choice([1, 2, 3, 7, 12]), rng.choice([1, 15, 28]))
     rate = rng.choice([rng.uniform(-0.05, 0.2499), rng.uniform(0, 0.05), 0.0, 0.2499])
     markup = rng.choice([0, 0, rng.uniform(0, 0.1), 0.005])
     if 1 + rate - markup <= 0.01:
